@@ -261,6 +261,14 @@ func (ws *priorityWriteScheduler) OpenStream(streamID uint32, options OpenStream
 			panic(fmt.Sprintf("stream %d already opened", streamID))
 		}
 		curr.state = priorityNodeOpen
+		// The stream is no longer idle: stop tracking it in idleNodes, otherwise a
+		// later AdjustStream would evict the node while the stream is open.
+		for i, n := range ws.idleNodes {
+			if n == curr {
+				ws.idleNodes = append(ws.idleNodes[:i], ws.idleNodes[i+1:]...)
+				break
+			}
+		}
 		return
 	}
 
